@@ -44,6 +44,8 @@ COMPOUNDS = [
     ("CH4O", "CO"),            # a SMILES string that is also somebody else's formula
     ("CO", "[C-]#[O+]"),
     ("HO-", "[OH-]"),
+    ("NH3", "N"), ("H3N", "N"), ("Cl2", "ClCl"),              # keys that are duplicated in the shipped rule file
+    ("O^2-", "[O-2]"), ("O2-", "[O][O-]"), ("S^2-", "[S-2]"), ("S2-", "[S][S-]"), ("SO4 2-", "[O-]S(=O)(=O)[O-]"),
 ]
 ALPHABET = [
     ["add", "H2O", "O"],
@@ -66,13 +68,22 @@ ALPHABET = [
     ["remove", "CO"],
     ["remove", "O"],                        # no entry has this formula (it is water's SMILES)
 ]
-STARTS = ["empty", "rules_manager", "automated_rules"]
+STARTS = ["empty", "rules_manager", "automated_rules", "foreign_records", "dataframe"]
 
 
 def _load_start(name):
     repo = os.environ.get("SYNRBL_REPO", "/repo")
     if name == "empty":
         return []
+    if name == "foreign_records":
+        # records that were not produced by add_entry in this session: keys missing or in another order
+        return [{"smiles": "O", "formula": "H2O"}, {"Composition": {"C": 1, "O": 2, "Q": 0}, "smiles": "O=C=O", "formula": "CO2"},
+                {"formula": "NH4+", "smiles": "[NH4+]", "Composition": {"N": 1, "H": 4, "Q": 1}, "source": "manual"},
+                {"formula": "NaCl", "smiles": "[Na+].[Cl-]"}]
+    if name == "dataframe":
+        import pandas as pd
+
+        return pd.DataFrame(_load_start("rules_manager"))
     p = {"rules_manager": os.path.join(repo, "synrbl", "SynRuleImputer", "rules_manager.json.gz"),
          "automated_rules": os.path.join(repo, "Data", "Rules", "automated_rules.json.gz")}[name]
     with open(p, "rb") as f:
@@ -101,7 +112,7 @@ def gen_plan(base_seed, i, tier):
                 k = rng.randint(1, 4)
                 ops.append(["bulk", [list(rng.choice(COMPOUNDS)) if rng.random() < 0.8 else ["Bad%d" % rng.randint(0, 3), "C1CC"] for _ in range(k)]])
             else:
-                ops.append(["remove", rng.choice(COMPOUNDS)[0] if rng.random() < 0.8 else rng.choice(["Nope", "Cl2", "H2O", "NH3", "Br2", "O", "N", "CO", "Cl", "[OH-]"])])
+                ops.append(["remove", rng.choice(COMPOUNDS)[0] if rng.random() < 0.8 else rng.choice(["Nope", "Cl2", "H2O", "NH3", "H3N", "Br2", "O", "N", "CO", "Cl", "[OH-]", "O2-", "S2-", "SO42-", "S^2-"])])
         hists.append({"start": rng.choice(STARTS), "ops": ops})
     return {"property": "C19", "kind": "seeded", "histories": hists}
 
@@ -122,6 +133,8 @@ def run_history(start, ops, start_db=None):
     vs = []
     db0 = copy.deepcopy(start_db if start_db is not None else _load_start(start))
     mgr = RuleImputeManager(copy.deepcopy(db0))
+    if not isinstance(db0, list):
+        db0 = db0.to_dict("records")
     model = [(e["formula"], e["smiles"]) for e in db0]
     start_ids = {id(e) for e in mgr.database}
     start_formula = {}
@@ -263,7 +276,7 @@ def execute(plan):
                 out["nontrivial_many"].append("%016x" % H(h))
         out["sample"] = {"start": plan["histories"][0]["start"], "ops": plan["histories"][0]["ops"][:12]}
     elif plan["kind"] == "start_states":
-        for name in STARTS[1:]:
+        for name in ("rules_manager", "automated_rules"):
             vs += start_state_findings(name)
             out["runs"] += 1
         out["sample"] = {"start_states_checked": STARTS[1:]}
